@@ -326,7 +326,15 @@ func shapesFor(h HarnessSpec, tier string) [][]int64 {
 	var out [][]int64
 	switch s := v.(type) {
 	case string:
-		// "a..b" single-argument range, or "a..b;c..d" cartesian product
+		// "a..b" single-argument range, or "a..b;c..d" cartesian product; "p1 | p2" = union of products
+		if strings.Contains(s, "|") {
+			for _, part := range strings.Split(s, "|") {
+				h2 := h
+				h2.Shapes = map[string]interface{}{tier: strings.TrimSpace(part)}
+				out = append(out, shapesFor(h2, tier)...)
+			}
+			return out
+		}
 		dims := strings.Split(s, ";")
 		out = [][]int64{nil}
 		for _, d := range dims {
